@@ -253,11 +253,12 @@ type reuseSpec struct {
 }
 
 var reuseTable = []reuseSpec{
-	{"Dictionary", "postingsListInit", "PostingsList", []string{"postings"}, map[string]string{"postings": "Clear"}, false, []string{"C07"}},
+	// the merges reuse one list and one iterator across all terms, fields and segments: C06 / C13
+	{"Dictionary", "postingsListInit", "PostingsList", []string{"postings"}, map[string]string{"postings": "Clear"}, false, []string{"C07", "C06"}},
 	{"PostingsList", "iterator", "PostingsIterator", []string{"freqNormReader", "locReader", "nextLocs", "nextSegmentLocs", "buf"},
-		map[string]string{"freqNormReader": "reset", "locReader": "reset"}, false, []string{"C07"}},
-	{"Thesaurus", "synonymsListInit", "SynonymsList", []string{"synonyms", "buffer"}, map[string]string{"synonyms": "Clear"}, false, []string{"C07"}},
-	{"SynonymsList", "iterator", "SynonymsIterator", nil, nil, false, []string{"C07"}},
+		map[string]string{"freqNormReader": "reset", "locReader": "reset"}, false, []string{"C07", "C06"}},
+	{"Thesaurus", "synonymsListInit", "SynonymsList", []string{"synonyms", "buffer"}, map[string]string{"synonyms": "Clear"}, false, []string{"C07", "C13"}},
+	{"SynonymsList", "iterator", "SynonymsIterator", nil, nil, false, []string{"C07", "C13"}},
 	{"VecPostingsList", "iterator", "VecPostingsIterator", nil, nil, true, []string{"C07"}},
 }
 
@@ -265,7 +266,7 @@ func ruleR12() *Rule {
 	return &Rule{
 		ID:    "R12",
 		Title: "REUSE-RESET: a caller-supplied object is zeroed completely before reuse, except tabled buffers that are cleaned",
-		Props: []string{"C07"},
+		Props: []string{"C07", "C06", "C13"},
 		Floor: floorFor("R12"),
 		Run: func(c *RuleCtx) {
 			for i := range reuseTable {
@@ -273,7 +274,16 @@ func ruleR12() *Rule {
 				if sp.Vectors && !c.p.Cfg.Vectors {
 					continue
 				}
+				from := len(c.obs)
 				fn := c.method(sp.Type, sp.Method)
+				// every obligation of this row serves the row's properties
+				defer func(from int, props []string) {
+					for j := from; j < len(c.obs); j++ {
+						if c.obs[j].Props == nil {
+							c.obs[j].Props = props
+						}
+					}
+				}(from, sp.Props)
 				if fn == nil {
 					continue
 				}
